@@ -158,7 +158,9 @@ def gen_pipeline_combine_cases(ctx, n):
 
 
 ID_POOL = ["g1", "g2", "g10", "G1", "_g3", "__x4", "__no_feature", "__ambiguous", "007", "1e5", "12", "3.50", "a b", "gé1",
-           "γ2", "ENSG00000000003.15", "zz", "Z", "count", "TPM", "#x"]
+           "γ2", "ENSG00000000003.15", "zz", "Z", "count", "TPM", "#x",
+           # legal ids that pandas' default NA parsing used to read as missing keys (fix 896585b)
+           "NA", "nan", "null", "None", "N/A", "NaN", "n/a", "<NA>", "NULL"]
 
 
 def gen_synthetic_combine_cases(ctx, n):
@@ -247,13 +249,19 @@ def impl_combine(samples, out):
     return {n: read_combined(os.path.join(out, n)) for n in COMBINED}
 
 
+NA_SEEN = [0]
+
+
 def combine_domain_ok(mexps):
-    """the input domain of the combine model: ids outside pandas' NA set, listed once per table"""
+    """the input domain of the combine model: ids listed once per table (ids in pandas' default NA set - 'NA', 'nan',
+    'null', ... - are INSIDE the domain since fix 896585b; only the empty id, which no writer produces, stays out)"""
     for e in mexps:
         for k in ("gene_counts", "transcript_counts", "gene_tpm", "transcript_tpm"):
             ids = [r[0] for r in e[k]["rows"]]
-            if len(set(ids)) != len(ids) or any(i in NA_STRINGS for i in ids):
+            if len(set(ids)) != len(ids) or "" in ids:
                 return False
+            if any(i in NA_STRINGS for i in ids):
+                NA_SEEN[0] += 1
             if k.endswith("tpm") and "__unassigned" in ids:
                 return False
     return True
@@ -287,6 +295,8 @@ def combine_correspondence(ctx, d):
         if not combine_domain_ok(mexps):
             ctx.count("combine_outside_domain")
             continue
+        if any(r[0] in NA_STRINGS for e in mexps for k in ("gene_counts", "transcript_counts") for r in e[k]["rows"]):
+            ctx.count("combine_with_na_like_id")
         todo.append((c, mexps, io))
         shutil.rmtree(os.path.join(d, "cmb%d" % c["id"]), ignore_errors=True)
     outs = ctx.driver.run([vlib.req("C02.combine_counts", exps=m) for _, m, _ in todo])
